@@ -297,6 +297,20 @@ func genAdmitCase(r *Rng, i int, k AdmitKnobs) *AdmitCase {
 			tag("deadline.alreadyPassed")
 		}
 	}
+	// the request's own context: already cancelled, or its deadline already passed, when the request arrives (no property makes
+	// a verdict, a warning or an annotation depend on that; only the dry run may be cut short)
+	if kind != "ns" && r.Chance(1, 14) {
+		if r.Bool() {
+			a.CtxCancelled = true
+			tag("ctx.cancelled")
+		} else {
+			a.Remaining = 1
+			tag("deadline.alreadyPassed")
+		}
+	} else if kind == "ns" && r.Chance(1, 40) {
+		a.CtxCancelled = true
+		tag("ctx.cancelled")
+	}
 	// metadata no property mentions: equal / different generations and resource versions on the object and the old object
 	if r.Chance(2, 3) {
 		a.Obj.MetaGen = pick(r, []int64{0, 1, 1, 2, 7})
